@@ -280,7 +280,40 @@ func runQuotaGuard(c *core.Ctx) {
 				notMember = true
 			}
 		}
-		insertOnlyWhenForwarded := !(mu.Block() == rej.Block() || mu.Block().Dominates(rej.Block())) && (mu.Block() == fwd.Block() || mu.Block().Dominates(fwd.Block()))
+		isMemberCond := func(cd an.Cond, want bool) bool {
+			var lk *ssa.Lookup
+			switch x := cd.V.(type) {
+			case *ssa.Lookup:
+				lk = x
+			case *ssa.Extract:
+				if l2, isL := x.Tuple.(*ssa.Lookup); isL && x.Index == 1 {
+					lk = l2
+				}
+			}
+			return lk != nil && an.PathOf(lk.X) == setPath && an.PathOf(lk.Index) == id && cd.True == want
+		}
+		// the id is entered on every forwarding path that did not find it in the set already
+		insertOnlyWhenForwarded := !(mu.Block() == rej.Block() || mu.Block().Dominates(rej.Block()))
+		if insertOnlyWhenForwarded && !(mu.Block() == fwd.Block() || mu.Block().Dominates(fwd.Block())) {
+			fps, okp := an.PathsTo(req, fwd.Block(), 1024)
+			if !okp {
+				insertOnlyWhenForwarded = false
+			}
+			for _, fp := range fps {
+				if !an.Feasible(fp) || fp.Contains(mu.Block()) {
+					continue
+				}
+				already := false
+				for _, cd := range fp.Conds() {
+					if isMemberCond(an.NormCond(cd), true) {
+						already = true
+					}
+				}
+				if !already {
+					insertOnlyWhenForwarded = false
+				}
+			}
+		}
 		if notMember && insertOnlyWhenForwarded && len(mapDeletesOn(req, ".subs")) == 0 {
 			c.Check(sym != "" && strings.HasPrefix(sym, "recv.") && rs.Equal(an.Range(0, an.PosInf)), nil, fname(c, req), "reject-set", P.Pos(rej.Pos()),
 				"before inserting the id: a new id is rejected iff len(set) ∈ "+rs.Format("N")+" with N = "+sym+"; an id that is already open passes",
@@ -297,6 +330,30 @@ func runQuotaGuard(c *core.Ctx) {
 		for _, d := range mapDeletesOn(req, ".subs") {
 			if an.PathOf(d.Call.Args[1]) == id && (d.Block() == rej.Block() || d.Block().Dominates(rej.Block())) && !(d.Block() == fwd.Block() || d.Block().Dominates(fwd.Block())) {
 				okDel = true
+			}
+			// the verdict computed under the lock and acted upon after it (`over := len > N; if over { delete };
+			// unlock; if over { reject }`): every rejecting path passes the removal, no forwarding path does
+			if !okDel && an.PathOf(d.Call.Args[1]) == id {
+				rps, ok1 := an.PathsTo(req, rej.Block(), 1024)
+				fps, ok2 := an.PathsTo(req, fwd.Block(), 1024)
+				good := ok1 && ok2
+				nr := 0
+				for _, rp := range rps {
+					if an.Feasible(rp) {
+						nr++
+						if !rp.Contains(d.Block()) {
+							good = false
+						}
+					}
+				}
+				for _, fp := range fps {
+					if an.Feasible(fp) && fp.Contains(d.Block()) {
+						good = false
+					}
+				}
+				if good && nr > 0 {
+					okDel = true
+				}
 			}
 		}
 		c.Check(okDel, nil, fname(c, req), "reject-releases", P.Pos(rej.Pos()), "the rejected id is removed again (and only on the rejecting path)", "a rejected REQ keeps its id in the set (or an accepted one loses it): the quota leaks slots / never fills")
